@@ -267,7 +267,7 @@ pub fn azimuth_sol_from_data(declination: f32, hourangle: f32, altsol: f32, lati
 
     let azimaux = asind(sin_azimaux1.clamp(-1.0, 1.0));
 
-    if sin_azimaux1 >= 0.0 && cos_azimaux1 > 0.0 {
+    if sin_azimaux1 >= 0.0 && cos_azimaux1 >= 0.0 {
         180.0 - azimaux
     } else if cos_azimaux1 < 0.0 {
         azimaux
